@@ -1,7 +1,160 @@
-(* C11 — placeholder while the proofs are being written *)
+(* C11 — Process groups reflect live membership and tell their monitors.
+   Only statements, pins, non-vacuity examples and Print Assumptions.
+   Models: Pg/Model.v (every pg function as one atomic step: all sequential histories),
+           Pg/Conc.v  (the same functions split into the lock sections of the code, any
+                       number of threads, every interleaving).
+   Proofs: Pg/Proofs.v, Pg/ConcProofs.v. *)
 From Coq Require Import List NArith Bool.
-From RV Require Import Pg.Model.
+From RV Require Import Pg.Model Pg.Proofs.
 Import ListNotations.
 Local Open Scope N_scope.
-Example ex_c11_run : get_members (run [OJoin 1 1 [1; 2; 1]; OExit 1]) 1 1 = [2].
-Proof. vm_compute; reflexivity. Qed.
+
+(* ------------------------------------------------------------------------------------
+   Part 1: sequential histories (arbitrary length, arbitrary operations and arguments)
+   ------------------------------------------------------------------------------------ *)
+
+(* (1) join/leave/exit refine insertion/deletion on sets: after any history the forward
+   map, the listener lists and the world listeners are exactly the specification's sets *)
+Theorem C11_refines_set : forall ops,
+  (forall s g a, In a (get_members (run ops) s g) <-> sm (spec_run ops) (s, g) a = true) /\
+  (forall k a, nmem a (lis_of (run ops) k) = gm (spec_run ops) k a) /\
+  (forall s a, nmem a (world_of (run ops) s) = wm (spec_run ops) s a) /\
+  (forall a, p_dead (run ops) a = sdead (spec_run ops) a).
+Proof.
+  intros ops. destruct (refine_run ops) as [A [B [C D]]]. repeat split; auto.
+  - apply members_spec. - apply members_spec.
+Qed.
+
+(* one step: the new membership is the old one plus/minus exactly the named live actors *)
+Theorem C11_refines_set_step : forall st o, inv st ->
+  forall k a, nmem a (mem_of (fst (step st o)) k) = sm (spec_step (abs st) o) k a.
+Proof. intros st o I k a. destruct (refine_step st o I) as [A _]. apply A. Qed.
+
+(* duplicates in one call and repeated joins are idempotent *)
+Theorem C11_join_idempotent : forall ops s g acts k a,
+  nmem a (mem_of (run (ops ++ [OJoin s g (acts ++ acts); OJoin s g acts])) k)
+  = nmem a (mem_of (run (ops ++ [OJoin s g acts])) k).
+Proof.
+  intros ops s g acts k a.
+  destruct (refine_run (ops ++ [OJoin s g (acts ++ acts); OJoin s g acts])) as [A _].
+  destruct (refine_run (ops ++ [OJoin s g acts])) as [B _].
+  simpl in A, B. rewrite A, B. unfold spec_run. rewrite !fold_left_app. simpl.
+  unfold nmem. rewrite existsb_app.
+  destruct (sm _ k a), (keqb (s, g) k), (existsb (N.eqb a) acts), (sdead _ a); reflexivity.
+Qed.
+
+(* (2) a group is listed iff it has members; every query answers from the membership *)
+Theorem C11_index_agree : forall ops,
+  let st := run ops in
+  (forall s g, In g (which_scoped_groups st s) <-> get_members st s g <> []) /\
+  (forall s g, In (s, g) (which_scopes_and_groups st) <-> get_members st s g <> []) /\
+  (forall g, In g (which_groups st) <-> exists s, get_members st s g <> []) /\
+  (forall s, In s (which_scopes st) <-> exists g, get_members st s g <> []) /\
+  (forall s g, get_local_members st s g = filter is_local (get_members st s g)) /\
+  (forall s, NoDup (which_scoped_groups st s)) /\ NoDup (which_scopes_and_groups st) /\
+  NoDup (which_groups st) /\ NoDup (which_scopes st) /\ (forall s g, NoDup (get_members st s g)).
+Proof. intros ops. apply index_agree, inv_run. Qed.
+
+(* (3) the reverse index mirrors the forward maps *)
+Theorem C11_reverse_agree : forall ops a,
+  let st := run ops in
+  (forall k, In k (r_mem (rel_of st a)) <-> In a (mem_of st k)) /\
+  (forall k, In k (r_gmon (rel_of st a)) <-> In a (lis_of st k)) /\
+  (forall s, In s (r_wmon (rel_of st a)) <-> In a (world_of st s)).
+Proof.
+  intros ops a. pose proof (inv_run ops) as I. repeat split; try apply I.
+Qed.
+
+(* (4) sequential no-zombie: a stopping/stopped actor is never added, and once its exit
+   has run it is in no members list, no listener list, no world list and owns no
+   reverse-index entry, whatever is called afterwards *)
+Theorem C11_no_zombie_seq : forall ops1 ops2 a,
+  let st := run (ops1 ++ OExit a :: ops2) in
+  (forall k, ~ In a (mem_of st k)) /\ (forall k, ~ In a (lis_of st k)) /\
+  (forall s, ~ In a (world_of st s)) /\ p_rels st a = None.
+Proof. exact no_zombie. Qed.
+
+Theorem C11_never_added : forall st o a k, inv st -> p_dead st a = true ->
+  ~ In a (mem_of (fst (step st o)) k) /\ ~ In a (lis_of (fst (step st o)) k).
+Proof. exact never_added. Qed.
+
+(* (5) notifications: exactly the listeners of the group, of its scope and of all scopes,
+   as they are at that step, one event per monitor relation, with the call's payload;
+   the automatic leave emits one batch per group the actor was still in (the groups of its
+   reverse index = the groups it is a member of, each once); nothing else is emitted *)
+Theorem C11_notify_exact : forall st, inv st ->
+  (forall s g acts,
+     snd (join st s g acts) =
+     let kept := filter (fun a => negb (p_dead st a)) acts in
+     if null kept then [] else map (fun l => mkEv l true s g kept) (recipients st s g)) /\
+  (forall s g acts,
+     snd (leave st s g acts) =
+     if has_entry st (s, g) then map (fun l => mkEv l false s g acts) (recipients st s g) else []) /\
+  (forall k, has_entry st k = true <-> (mem_of st k <> [] \/ lis_of st k <> [])) /\
+  (forall a, p_dead st a = false ->
+     snd (exit_ st a) =
+     flat_map (fun k => map (fun l => mkEv l false (fst k) (snd k) [a])
+                            (recipients (fst (exit_ st a)) (fst k) (snd k)))
+              (r_mem (rel_of st a))) /\
+  (forall a, NoDup (r_mem (rel_of st a)) /\ forall k, In k (r_mem (rel_of st a)) <-> In a (mem_of st k)) /\
+  (forall a, p_dead st a = true -> snd (exit_ st a) = []) /\
+  (forall g a, snd (step st (OMon g a)) = []) /\ (forall s a, snd (step st (OMonScope s a)) = []) /\
+  (forall g a, snd (step st (ODemon g a)) = []) /\ (forall s a, snd (step st (ODemonScope s a)) = []) /\
+  (forall s g l, count_occ N.eq_dec (recipients st s g) l = fanout (abs st) s g l).
+Proof.
+  intros st I. repeat split; auto.
+  - intros. apply notify_join.
+  - intros. apply notify_leave.
+  - apply entry_iff; auto. - apply entry_iff; auto.
+  - intros. apply notify_exit; auto.
+  - apply (i_nd_rmem _ I). - apply (i_rmem _ I). - apply (i_rmem _ I).
+  - intros. apply exit_dead_noev; auto.
+  - intros. apply recipients_count; auto.
+Qed.
+
+(* the invariant holds after every history, so (5) applies at every step of every history *)
+Theorem C11_inv_always : forall ops, inv (run ops).
+Proof. exact inv_run. Qed.
+
+(* ---- statement pins ---- *)
+Check (C11_no_zombie_seq : forall ops1 ops2 a,
+  let st := run (ops1 ++ OExit a :: ops2) in
+  (forall k, ~ In a (mem_of st k)) /\ (forall k, ~ In a (lis_of st k)) /\
+  (forall s, ~ In a (world_of st s)) /\ p_rels st a = None).
+Check (C11_refines_set_step : forall st o, inv st ->
+  forall k a, nmem a (mem_of (fst (step st o)) k) = sm (spec_step (abs st) o) k a).
+
+(* ---- non-vacuity ---- *)
+Definition ex_ops : list op :=
+  [OMon 2 3; OMonScope 1 4; OMonScope 0 101; OJoin 1 2 [1; 1; 102]; OJoin 1 2 [1]; OJoin 2 2 [2];
+   OLeave 1 2 [1; 4]; OExit 102; OExit 3; OJoin 1 2 [102; 2]].
+Example ex_members : get_members (run ex_ops) 1 2 = [2] /\ which_scopes (run ex_ops) = [2; 1]
+                     /\ which_scoped_groups (run ex_ops) 1 = [2].
+Proof. vm_compute. auto. Qed.
+Example ex_events :
+  snd (step (run (firstn 3 ex_ops)) (OJoin 1 2 [1; 1; 102]))
+  = [mkEv 3 true 1 2 [1; 1; 102]; mkEv 4 true 1 2 [1; 1; 102]; mkEv 101 true 1 2 [1; 1; 102]].
+Proof. vm_compute. reflexivity. Qed.
+Example ex_exit_events :
+  snd (step (run (firstn 7 ex_ops)) (OExit 102)) = [mkEv 3 false 1 2 [102]; mkEv 4 false 1 2 [102]; mkEv 101 false 1 2 [102]].
+Proof. vm_compute. reflexivity. Qed.
+Example ex_oracle :
+  let u := mkU [1; 2; 3] [1; 2; 3] [1; 2; 3; 4; 101; 102] in
+  check_C11 u ex_ops (run_views u pg0 ex_ops) = true.
+Proof. vm_compute. reflexivity. Qed.
+(* the oracle is not vacuous: a zombie member is rejected *)
+Example ex_oracle_rejects :
+  let u := mkU [1] [1] [1; 2] in
+  check_C11 u [OJoin 1 1 [1]; OExit 1]
+    (run_views u pg0 [OJoin 1 1 [1]] ++ run_views u pg0 [OJoin 1 1 [1]]) = false.
+Proof. vm_compute. reflexivity. Qed.
+
+Print Assumptions C11_refines_set.
+Print Assumptions C11_refines_set_step.
+Print Assumptions C11_join_idempotent.
+Print Assumptions C11_index_agree.
+Print Assumptions C11_reverse_agree.
+Print Assumptions C11_no_zombie_seq.
+Print Assumptions C11_never_added.
+Print Assumptions C11_notify_exact.
+Print Assumptions C11_inv_always.
